@@ -376,7 +376,7 @@ def run(ck):
     ff = m.func("simp_flag_cst")
     accepted = None
     for n in walk_body(ff):
-        if isinstance(n, ast.Compare) and isinstance(n.ops[0], ast.NotIn) and norm(n.left) == "expr.op":
+        if isinstance(n, ast.Compare) and isinstance(n.ops[0], (ast.NotIn, ast.In)) and norm(n.left) == "expr.op":
             accepted = str_elts(n.comparators[0])
     ck.need(accepted, "simp_flag_cst: accepted operator list not found")
     sx = ck.repo.mod(SX)
